@@ -129,9 +129,11 @@ fn draw_edit(r: &mut Prng, f: &FactSet, which: u64) -> Option<Edit> {
     match which {
         0 => {
             // usually a fresh name; sometimes a change that only shows beyond the first 255 bytes, or in the last character
-            let id = *r.pick(&ids);
+            // over-long names are rare: prefer them half of the time, so that renames beyond byte 255 occur
+            let long: Vec<u32> = f.terms.iter().filter(|t| t.name.len() >= 255).map(|t| t.id).collect();
+            let id = if !long.is_empty() && r.chance(1, 2) { *r.pick(&long) } else { *r.pick(&ids) };
             let old = &f.terms.iter().find(|t| t.id == id).unwrap().name;
-            let name = match r.below(4) {
+            let name = match if old.len() >= 255 { r.below(2) } else { r.below(4) } {
                 0 => format!("{old}x"),
                 1 if old.len() > 1 => {
                     let cut = (0..old.len()).rev().find(|i| old.is_char_boundary(*i)).unwrap_or(0);
@@ -453,6 +455,24 @@ pub fn execute(ctx: &mut Ctx, s: &Scenario) -> Outcome {
         ctx.counters.add(&format!("fault.edit.{}", n.split([' ', '{']).next().unwrap_or("")), 1);
     }
     ctx.ev(|| format!("edits between replica A and B: {:?}", s.edits));
+    for e in &s.edits {
+        match e {
+            Edit::RenameTerm { id, name } => {
+                if let Some(t) = fa.terms.iter().find(|t| t.id == *id) {
+                    let common = t.name.bytes().zip(name.bytes()).take_while(|(a, b)| a == b).count();
+                    if common >= 255 {
+                        ctx.counters.add("probe.rename_differs_only_beyond_byte_255", 1);
+                    }
+                }
+            }
+            Edit::AddAnn { kind, id, .. } | Edit::RemoveAnn { kind, id, .. } => {
+                if fa.recs(*kind).iter().any(|r| r.id == *id && r.terms.len() >= 30) {
+                    ctx.counters.add("probe.annotation_edit_on_record_with_30_or_more_terms", 1);
+                }
+            }
+            _ => {}
+        }
+    }
     let a = build(ctx, &fa, &s.replicas[0]);
     let b = build(ctx, &fb, &s.replicas[1]);
     out.mixin(tag(&a.describe()));
